@@ -26,6 +26,12 @@ def classify(t, f):
         return ('T', 'poll_expired')
     if c == 'tokio_util::time::DelayQueue::is_empty':
         return ('T', 'is_empty')
+    if c in ('std::collections::HashMap::drain', 'std::collections::HashMap::clear'):
+        return ('M', 'drain')
+    if c == 'std::collections::HashMap::is_empty':
+        return ('M', 'is_empty')
+    if c in ('std::collections::HashMap::remove', 'std::collections::HashMap::remove_entry') and 'u64' in str(t.get('arg_tys')):
+        return ('M', 'remove')
     return None
 
 
@@ -217,7 +223,7 @@ def _run_job(job):
     F = _JOB_F
     try:
         X = Explorer(F, make_aut(job['aut']), classify, chain=job.get('chain', ()), cell_accessors=job.get('acc'), cmp_sites=job.get('cmp_sites'),
-                     depth=job.get('depth', 4), kill_facts=job.get('kill_facts'), max_states=job.get('max_states', 1500000))
+                     depth=job.get('depth', 4), kill_facts=job.get('kill_facts'), max_states=job.get('max_states', 1500000), boundary=job.get('boundary'))
         entry = F.fns[job['entry']]
         exits = set()
         for cellv in job.get('cells', [()]):
@@ -248,3 +254,38 @@ def run_jobs(F, jobs, nproc=None):
             raise CannotDecide('shape exploration: ' + r['error'])
         out[r['key']] = r
     return out
+
+
+def cmp_sites_for(F, P, fns, is_a, is_b, name):
+    """comparison statements `a OP b` (either order) in the given bodies where is_a / is_b classify the
+    operands.  Returns {(fn id, bb, stmt idx): fact name} where the fact name encodes the orientation:
+    name+'+' : the comparison being TRUE means  a >= b ;  name+'-' : TRUE means a < b  (or a == b for Eq: name+'=')."""
+    out = {}
+    for f in fns:
+        for i, j, s in f.stmts():
+            rv = s['rv']
+            if rv['k'] != 'bin' or rv['op'] not in ('Lt', 'Le', 'Gt', 'Ge', 'Eq', 'Ne'):
+                continue
+            a = P.operand(f, rv['a'], at=i)
+            b = P.operand(f, rv['b'], at=i)
+            op = rv['op']
+            if is_a(a) and is_b(b):
+                pass
+            elif is_a(b) and is_b(a):
+                op = {'Lt': 'Gt', 'Le': 'Ge', 'Gt': 'Lt', 'Ge': 'Le', 'Eq': 'Eq', 'Ne': 'Ne'}[op]
+            else:
+                continue
+            sense = {'Ge': '+', 'Lt': '-', 'Eq': '=', 'Ne': '!', 'Gt': '>', 'Le': '<'}[op]
+            out[(f.id, i, j)] = name + sense
+    return out
+
+
+def fact_true(facts, name):
+    """does the fact set establish `a >= b` for the comparison family `name`?"""
+    d = dict(facts)
+    return d.get(name + '+') is True or d.get(name + '-') is False
+
+
+def fact_false(facts, name):
+    d = dict(facts)
+    return d.get(name + '+') is False or d.get(name + '-') is True
